@@ -210,6 +210,10 @@ extern void PrintSymbolList(void);
 
 extern void PrintDebSymbols(FILE* f);
 
+#ifdef FLAMEWING_ASL_VERIF
+extern unsigned long asl_verif_symbol_hash(void);
+#endif
+
 extern void PrintNoISymbols(FILE* f);
 
 extern void PrintSymbolTree(void);
